@@ -85,6 +85,12 @@ checks.update({
    text="All sequences up to depth 4 (quick) / 5 (thorough) of {Put / Delete of 3 keys (two share a partition) through the oldest or youngest member, join, routing push, one balancer pass on member i (one table per fragment), compaction, janitor, graceful leave (offered only while ReplicaCount distinct members hold every live key)} from 1-2 members up to 3, R in 1..2, 64 KiB and 128-byte tables. Join histories: in every state a Get of every key from every serving member returns the last acknowledged value or not-found; after stabilisation every live key is stored exactly once as a primary copy on the partition owner and keeps its backup copies. Every history: after stabilisation reads return the last acknowledged value, deleted keys are not-found and stored nowhere.",
    note="sender/receiver crash in the middle of a fragment move is not enumerated (faults belong to C02, not built); membership comes from the fake discovery layer; the join/leave split of the oracle follows the statement (see DESIGN 12)"),
 })
+checks.update({
+ "C14": dict(cat="model_checking", engine="clustermc", ref="6 C14",
+   technique="explicit-state BFS over subscribe/unsubscribe/disconnect/publish sequences on real members (path replay, de-duplication on the implementation's own subscription tree) against a reference subscription model; plus stateless exploration of the interleavings of concurrent publishers and a subscription change (preemption bounded)",
+   text="All sequences up to depth 5 (quick) / 6 (thorough) of SUBSCRIBE, PSUBSCRIBE, UNSUBSCRIBE and PUNSUBSCRIBE (one / all), disconnect on three subscriber connections spread over two members, and PUBLISH of a uniquely tagged message on channels {a,b} through either member, patterns {a*, b}: per connection the frames received match its subscriptions (none 0, one exactly 1, k overlapping 1..k), nothing foreign arrives, the PUBLISH reply equals the deliveries made; in every state PUBSUB CHANNELS [filter] / NUMSUB / NUMPAT on every member equal the model. Concurrent part: every schedule with at most 2/3 preemptions of publishers A (two messages via member0), B (via member1) and a thread that unsubscribes / subscribes a connection and then publishes: exact counts for stable subscribers, publication order of A, silence after an acknowledged UNSUBSCRIBE, reply = frames written.",
+   note="subscriber connections are a stand-in for redcon's detached connection feeding the real background runner; in the concurrent part the (un)subscribe body runs on a scheduled thread through an accessor instead of on the runner goroutine; go-redis client-side reconnect/resubscribe is outside the model"),
+})
 not_applicable = {}
 all_ids = ["C%02d" % i for i in range(1, 21)]
 for i in all_ids:
@@ -102,10 +108,10 @@ m = {
  },
  "engines": [
    {"name": "kvmc", "path": "harness/kvmc", "serves_properties": ["C11", "C12", "C20"], "kind_free_text": "explicit-state BFS over the real storage engine"},
-   {"name": "schedmc", "path": "harness/schedmc", "serves_properties": ["C01", "C07", "C08"], "kind_free_text": "stateless schedule exploration (preemption bounded DFS) of real members under a cooperative scheduler"},
+   {"name": "schedmc", "path": "harness/schedmc", "serves_properties": ["C01", "C07", "C08", "C14"], "kind_free_text": "stateless schedule exploration (preemption bounded DFS) of real members under a cooperative scheduler"},
    {"name": "inputmc", "path": "harness/checks/c16.go", "serves_properties": ["C16", "C17"], "kind_free_text": "exhaustive enumeration of request argument vectors / byte frames / typed boundary values through the real handlers and clients, in crash-isolated workers with a watchdog"},
    {"name": "faultgrid", "path": "harness/checks", "serves_properties": ["C05", "C06", "C15", "C18"], "kind_free_text": "exhaustive enumeration of finite configuration / fault / layout grids, one fresh real cluster per case"},
-   {"name": "clustermc", "path": "harness/clustermc", "serves_properties": ["C03", "C04", "C09", "C10", "C12", "C13", "C19"], "kind_free_text": "explicit-state BFS over event sequences on a simulated cluster of real members (path replay)"},
+   {"name": "clustermc", "path": "harness/clustermc", "serves_properties": ["C03", "C04", "C09", "C10", "C12", "C13", "C14", "C19"], "kind_free_text": "explicit-state BFS over event sequences on a simulated cluster of real members (path replay)"},
  ],
  "checks": [],
  "not_applicable": [{"property_id": k, "reason": v} for k, v in sorted(not_applicable.items())],
